@@ -118,6 +118,7 @@ type FuncCtx struct {
 	entry                                                     *St
 	heapElems                                                 []*Sort
 	mapUni                                                    []mapTy
+	likeVisiting                                              map[string]bool
 	tsubstTypes                                               map[string]types.Type
 	unknownCalls                                              int
 	specDecl                                                  map[string]bool
